@@ -43,12 +43,18 @@ pub fn dir_enc(asy: bool, c: Compression, es: &[Entry]) -> std::io::Result<Vec<u
     }
 }
 pub fn dir_dec(asy: bool, c: Compression, b: &[u8]) -> std::io::Result<Vec<Entry>> {
+    // through readers that serve a varying number of bytes per call (a reader may legally do so)
     if asy {
-        let mut r = futures::io::Cursor::new(b);
+        let mut r = crate::streams::AFrag::new(b.to_vec());
         let d = block_on(Directory::from_async_reader(&mut r, b.len() as u64, c))?;
         Ok(dir_entries(&d))
     } else {
-        let d = Directory::from_bytes(b, c)?;
+        let mut r = crate::streams::Frag::new(b.to_vec());
+        let d = Directory::from_reader(&mut r, b.len() as u64, c)?;
+        let direct = Directory::from_bytes(b, c)?;
+        if dir_entries(&direct) != dir_entries(&d) {
+            return Err(std::io::Error::new(std::io::ErrorKind::Other, "from_bytes and from_reader disagree"));
+        }
         Ok(dir_entries(&d))
     }
 }
